@@ -415,9 +415,22 @@ func c15RecCase(c *core.Ctx, id string) {
 	if !ok {
 		return
 	}
+	// lrec/... = the same corruption, met by a long-lived Project that had loaded the intact record before: built, reloaded
+	// once more, then the record is damaged and the project is Reload()ed and built again
+	var lv *pj.Live
+	if parts[0] == "lrec" {
+		lv = &pj.Live{}
+		lv.Build(pj.BuildReq{Root: s.Root, Target: "//:default"})
+		lv.Build(pj.BuildReq{Root: s.Root})
+	}
 	os.WriteFile(path, corrupted, 0o644)
 	from := s.LogLen()
-	res := pj.Build(pj.BuildReq{Root: s.Root, Target: "//:default", PreferIndex: preferIndex})
+	var res pj.BuildRes
+	if lv != nil {
+		res = lv.Build(pj.BuildReq{Root: s.Root, Target: "//:default"})
+	} else {
+		res = pj.Build(pj.BuildReq{Root: s.Root, Target: "//:default", PreferIndex: preferIndex})
+	}
 	// "executed" = dawn evaluated the target again (the default target's body is a builtin that
 	// writes no log line, so the evaluating events are used; the log is a cross-check)
 	executed := map[string]bool{}
@@ -457,7 +470,7 @@ func c15RecCase(c *core.Ctx, id string) {
 		}
 	}
 	// (index targets are never executable, so "must have re-executed" is only meaningful after a full load)
-	if parts[0] == "rec" && (outcome == "nothing-executed" || outcome == "re-executed") {
+	if (parts[0] == "rec" || parts[0] == "lrec") && (outcome == "nothing-executed" || outcome == "re-executed") {
 		lbl := labelOfRecord(rel)
 		isTarget := strings.HasPrefix(rel, "targets/")
 		same, why := semanticallyEqual(raw, corrupted, isTarget)
@@ -515,6 +528,25 @@ func c15Records(c *core.Ctx) {
 		}
 		for k := 0; k < 6; k++ {
 			add(fmt.Sprintf("irec/%d/depstamp/%d/%d", fi, k/3, k%3))
+		}
+		// ... and met by a long-lived Project on Reload
+		for n := 0; n < len(raw); n += c.N(61, 5) {
+			add(fmt.Sprintf("lrec/%d/jtrunc/%d/0", fi, n))
+		}
+		for k := 0; k < 16; k++ {
+			add(fmt.Sprintf("lrec/%d/jwhole/%d/0", fi, k))
+		}
+		if strings.HasPrefix(rel, "targets/") {
+			pk, _ := base64.StdEncoding.DecodeString(recs[rel].Stamp)
+			for k := 0; k < c.N(25, 2000) && len(pk) > 0; k++ {
+				add(fmt.Sprintf("lrec/%d/ssub/%d/%d", fi, r.IntN(len(pk)), opcodes[r.IntN(len(opcodes))]))
+			}
+			for n := 0; n < len(pk); n += c.N(97, 7) {
+				add(fmt.Sprintf("lrec/%d/strunc/%d/0", fi, n))
+			}
+			for k := 0; k <= 10; k++ {
+				add(fmt.Sprintf("lrec/%d/ssplice/%d/0", fi, k))
+			}
 		}
 		if strings.HasPrefix(rel, "targets/") {
 			pk, _ := base64.StdEncoding.DecodeString(recs[rel].Stamp)
@@ -597,5 +629,5 @@ func c15Records(c *core.Ctx) {
 			}
 			c.Violation(caseID, "", "corrupted-record-crashes-the-process:"+r.FatalKind(), map[string]any{"stderr": headLinesStr(r.Stderr, 30)})
 		}})
-	c.Sample(map[string]any{"kind": "record corruption case ids", "value": []string{"rec/<record>/jtrunc/<len>", "rec/<record>/jsub/<pos>/<byte>", "rec/<record>/jwhole/<k>", "rec/<record>/ssub/<pos>/<byte> (inside the pickled stamp)", "rec/<record>/strunc/<len>", "rec/<record>/ssplice/<k>", "rec/<record>/sflip/<k>/<alt> (container constructor flipped to another kind)", "rec/<record>/depstamp/<k>/<how>", "irec/... (the same record corruptions met by an index-preferring load)", "idx/... (index.json with an index-preferring load)"}})
+	c.Sample(map[string]any{"kind": "record corruption case ids", "value": []string{"rec/<record>/jtrunc/<len>", "rec/<record>/jsub/<pos>/<byte>", "rec/<record>/jwhole/<k>", "rec/<record>/ssub/<pos>/<byte> (inside the pickled stamp)", "rec/<record>/strunc/<len>", "rec/<record>/ssplice/<k>", "rec/<record>/sflip/<k>/<alt> (container constructor flipped to another kind)", "rec/<record>/depstamp/<k>/<how>", "irec/... (the same record corruptions met by an index-preferring load)", "lrec/... (met by a long-lived Project on Reload)", "idx/... (index.json with an index-preferring load)"}})
 }
